@@ -127,6 +127,8 @@ def gen_faults(r, prop, nbrokers, topics, producers):
              "leader_move", "leader_unavailable", "stale_metadata", "delay", "broker_down"]
     if prop == "C02":
         kinds.append("wall_clock_jump")
+    if nbrokers >= 2:
+        kinds.append("broker_failover")
     enabled = r.sample(kinds, r.randint(1, len(kinds)))
     faults = []
     tps = [(t, p) for t, d in sorted(topics.items()) for p in range(d["partitions"])]
@@ -161,6 +163,12 @@ def gen_faults(r, prop, nbrokers, topics, producers):
                                                               r.choice([0.02, 0.1, 0.5])]}})
         elif k == "wall_clock_jump":
             faults.append({"on": trig, "do": {"wall_clock_jump": r.choice([-3600.0, 5.0, 86400.0])}})
+        elif k == "broker_failover":
+            # the broker serving this request (or another one) dies, before or after applying
+            # it; its partitions get new leaders for good
+            faults.append({"on": trig, "do": {"broker_failover": [
+                r.choice(["serving", "serving_after", "serving_after", r.randint(1, nbrokers)]),
+                r.choice([0.3, 3.0, 1e6])]}})
     return faults
 
 
